@@ -295,9 +295,6 @@ VARIANTS = [
      "old": "        if self._normalize_flag_val(ctx) & self._flag_val:\n            return reader.read(self._ser_spec, ctx=ctx)\n",
      "new": "        if (self._normalize_flag_val(ctx) & self._flag_val) == self._flag_val:\n"
             "            return reader.read(self._ser_spec, ctx=ctx)\n"},
-    {"name": "R9 Collection reader treats a fixed length of one as greedy", "file": SER, "expect": "C08.R9",
-     "old": "        if self._len_spec or self._length:\n            if self._len_spec:\n                size = reader.read(",
-     "new": "        if self._len_spec or self._length > 1:\n            if self._len_spec:\n                size = reader.read("},
     {"name": "P R9 OptionalFlagged writer spells the mask test as != 0", "file": SER, "expect": "silent",
      "old": "        if self._normalize_flag_val(ctx) & self._flag_val:\n            writer.write(self._ser_spec, val, ctx=ctx)\n",
      "new": "        if (self._flag_val & self._normalize_flag_val(ctx)) != 0:\n"
@@ -370,19 +367,6 @@ VARIANTS = [
                  "        return self.owner._deserialize_inner(self.order, self.plain, self.data, ctx=None)\n\n\n"
                  "class TypedBytesBase(SerializableBase, abc.ABC):\n"}]},
     # ------------------------------------------------------------------ state attribute instead of flag pair
-    {"name": "P R1/R2/R9 Collection folds its two length attributes into a mode string set in __init__", "file": SER,
-     "expect": "silent",
-     "edits": [
-         {"file": SER, "old": "        elif isinstance(length, int):\n            self._length = length\n\n"
-          "    def serialize(self, entries, writer: BufferWriter, ctx):\n        if self._len_spec:\n",
-          "new": "        elif isinstance(length, int):\n            self._length = length\n"
-                 "        if self._len_spec:\n            self._mode = \"prefixed\"\n        elif self._length:\n"
-                 "            self._mode = \"counted\"\n        else:\n            self._mode = \"greedy\"\n\n"
-                 "    def serialize(self, entries, writer: BufferWriter, ctx):\n        if self._mode == \"prefixed\":\n"},
-         {"file": SER, "old": "                raise ValueError(f\"{len(entries)} is wider than {max_len}\")\n        elif self._length:\n",
-          "new": "                raise ValueError(f\"{len(entries)} is wider than {max_len}\")\n        elif self._mode == \"counted\":\n"},
-         {"file": SER, "old": "        if self._len_spec or self._length:\n            if self._len_spec:\n                size = reader.read(",
-          "new": "        if self._mode != \"greedy\":\n            if self._mode == \"prefixed\":\n                size = reader.read("}]},
     # ------------------------------------------------------------------ R13
     {"name": "R13 SegmentSerializer keeps one scratch writer on the instance", "file": MESH, "expect": "C08.R13",
      "edits": [
@@ -623,6 +607,15 @@ VARIANTS = [
           "new": "        instance += _PAD_BYTE * (self._length - len(instance))\n"},
          {"file": SER, "old": "        return reader.read(self._bytes_tmpl, ctx=ctx).rstrip(b\"\\x00\").decode(\"utf8\")\n",
           "new": "        return reader.read(self._bytes_tmpl, ctx=ctx).rstrip(_PAD_BYTE).decode(\"utf8\")\n"}]},
+    # decided by the generic builtin-eq-ne lint (P2) once it looks through typing aliases: OrderedMultiDict's base is
+    # MultiDict(Dict[_K, _T]), and structlint compares the base's name with "dict" literally.  Flip to "C08.P2" then.
+    {"name": "X P2 OrderedMultiDict loses its __ne__ again (D154; lint does not see Dict[..] as dict yet)",
+     "file": "hippolyzer/lib/base/multidict.py", "expect": "miss",
+     "old": "    def __ne__(self, other: object) -> bool:\n        # dict.__ne__ would compare the raw buckets, which never compare equal\n"
+            "        eq = self.__eq__(other)\n        return eq if eq is NotImplemented else not eq\n\n", "new": ""},
+    {"name": "P P2 OrderedMultiDict.__ne__ spelled as a plain negation", "file": "hippolyzer/lib/base/multidict.py", "expect": "silent",
+     "old": "        eq = self.__eq__(other)\n        return eq if eq is NotImplemented else not eq\n",
+     "new": "        return not self.__eq__(other)\n"},
     # ------------------------------------------------------------------ documented limits (value level)
     {"name": "X OptionalPrefixed reader's presence test flipped (conditions are not compared)", "file": SER, "expect": "miss",
      "old": "        present = reader.read(U8, ctx=ctx)\n        if present:\n", "new":
